@@ -42,6 +42,28 @@ def functions_of(tree: ast.Module) -> Dict[str, Tuple[ast.AST, Optional[ast.Clas
     return out
 
 
+def all_functions(tree: ast.Module) -> List[Tuple[str, ast.AST, Optional[ast.ClassDef]]]:
+    """Like functions_of, but every definition is listed: a class may define one name several times (overloads registered by a
+    decorator, e.g. the grammar actions of a sly parser), and each of them can host calls to a helper."""
+    out: List[Tuple[str, ast.AST, Optional[ast.ClassDef]]] = []
+    for n in tree.body:
+        if isinstance(n, (ast.FunctionDef, ast.AsyncFunctionDef)):
+            out.append((n.name, n, None))
+        elif isinstance(n, ast.ClassDef):
+            todo = [(n, n.name)]
+            while todo:
+                k, prefix = todo.pop(0)
+                for m in k.body:
+                    if isinstance(m, (ast.FunctionDef, ast.AsyncFunctionDef)):
+                        q = f"{prefix}.{m.name}"
+                        if any(isinstance(d, ast.Attribute) and d.attr == "setter" for d in m.decorator_list):
+                            q += ".setter"
+                        out.append((q, m, k))
+                    elif isinstance(m, ast.ClassDef):
+                        todo.append((m, f"{prefix}.{m.name}"))
+    return out
+
+
 def consts_of(tree: ast.Module) -> Dict[str, Tuple[ast.expr, Optional[ast.ClassDef]]]:
     out: Dict[str, Tuple[ast.expr, Optional[ast.ClassDef]]] = {}
 
@@ -184,7 +206,7 @@ def propagate_new_constants(tree: ast.Module, ref_consts: Set[str]) -> int:
 # ------------------------------------------------------------------------------------------- helpers
 def _eligible(fn: ast.AST) -> Optional[Tuple[List[ast.stmt], ast.expr]]:
     a = fn.args  # type: ignore[attr-defined]
-    if a.vararg or a.kwarg or a.posonlyargs:
+    if a.kwarg or a.posonlyargs:
         return None
     for d in fn.decorator_list:  # type: ignore[attr-defined]
         if not (isinstance(d, ast.Name) and d.id in ("staticmethod", "classmethod")):
@@ -212,7 +234,7 @@ def _eligible(fn: ast.AST) -> Optional[Tuple[List[ast.stmt], ast.expr]]:
         pre, ret = (body[:-1] if last is not None else body), ast.Constant(value=None)
         if not pre:
             return None
-    params = {x.arg for x in a.args + a.kwonlyargs}
+    params = {x.arg for x in a.args + a.kwonlyargs} | ({a.vararg.arg} if a.vararg else set())
     for s in pre:
         if isinstance(s, (ast.FunctionDef, ast.AsyncFunctionDef, ast.ClassDef, ast.Global, ast.Nonlocal)):
             return None
@@ -265,7 +287,7 @@ def _tail_returns(stmts: List[ast.stmt]) -> Optional[List[ast.Return]]:
 def _stmt_eligible(fn: ast.AST) -> Optional[List[ast.stmt]]:
     """Body of a helper that can be spliced in statement position (`x = helper(..)`, `return helper(..)`, `helper(..)`)."""
     a = fn.args  # type: ignore[attr-defined]
-    if a.vararg or a.kwarg or a.posonlyargs:
+    if a.kwarg or a.posonlyargs:
         return None
     for d in fn.decorator_list:  # type: ignore[attr-defined]
         if not (isinstance(d, ast.Name) and d.id in ("staticmethod", "classmethod")):
@@ -274,7 +296,7 @@ def _stmt_eligible(fn: ast.AST) -> Optional[List[ast.stmt]]:
     rets = _tail_returns(body)
     if not body or rets is None or not rets:
         return None
-    params = {x.arg for x in a.args + a.kwonlyargs}
+    params = {x.arg for x in a.args + a.kwonlyargs} | ({a.vararg.arg} if a.vararg else set())
     for n in ast.walk(fn):
         if n is not fn and isinstance(n, (ast.FunctionDef, ast.AsyncFunctionDef, ast.Lambda, ast.Yield, ast.YieldFrom, ast.ClassDef, ast.Global, ast.Nonlocal)):
             return None
@@ -333,11 +355,14 @@ def _bind(fn: ast.AST, call: ast.Call, skip_first: bool) -> Optional[Dict[str, a
     kwonly = [x.arg for x in a.kwonlyargs]
     if any(isinstance(x, ast.Starred) for x in call.args) or any(k.arg is None for k in call.keywords):
         return None
-    if len(call.args) > len(params):
+    if len(call.args) > len(params) and not a.vararg:
         return None
     m: Dict[str, ast.expr] = {}
     for p, v in zip(params, call.args):
         m[p] = v
+    if a.vararg:
+        # *rest receives the surplus positional arguments as a tuple (a literal tuple here: loops over it can be unrolled)
+        m[a.vararg.arg] = ast.Tuple(elts=list(call.args[len(params):]), ctx=ast.Load())
     for k in call.keywords:
         if k.arg in m or k.arg not in params + kwonly:
             return None
@@ -373,7 +398,7 @@ def inline_new_helpers(tree: ast.Module, ref_functions: Set[str]) -> int:
         if not helpers:
             break
         changed = 0
-        for q, (host, hcls) in funcs.items():
+        for q, host, hcls in all_functions(tree):
             if q in helpers:
                 continue
             changed += _inline_into(host, hcls, helpers)
